@@ -1,4 +1,5 @@
 """C04 - evaluation always reflects the current inputs (no stale results)."""
+import importlib
 import itertools
 
 from vf.core.runner import Result
@@ -182,6 +183,9 @@ def _alphabet(m):
     for i in sorted(m['inputs']):
         for v in m.get('setvals', (7, 11.5)):
             ops.append(['set', i, v])
+        # the address handed over as an XLCell OBJECT (the other form
+        # set_cell_value accepts)
+        ops.append(['setx', i, m.get('setvals', (7, 11.5))[-1]])
     for c in sorted(m['formulas']):
         ops.append(['eval', c])
     for n, a in sorted(m.get('names', {}).items()):
@@ -258,7 +262,7 @@ def _build(d, maxsteps):
                 if sw:
                     # the set goes through ANOTHER evaluator of the model
                     hist.append(['other'])
-                hist.append(['set', d.choice(clo),
+                hist.append([d.choice(['set', 'set', 'setx']), d.choice(clo),
                              d.choice([0, 1, -3, 2.5, 10, 100, 7, 42, 1.0, 0.0,
                                    7.0])])
             if sw and clo and d.pick(3):
@@ -271,7 +275,8 @@ def _build(d, maxsteps):
         if k < 4 and model['order']:
             hist.append(['eval', d.choice(model['order'])])
         elif k < 7:
-            hist.append(['set', d.choice(inputs),
+            hist.append([d.choice(['set', 'set', 'set', 'setx']),
+                         d.choice(inputs),
                          d.choice([0, 1, -3, 2.5, 10, 100, 7, 42])])
         elif k < 8:
             hist.append(['get', d.choice(cells)])
@@ -353,11 +358,16 @@ def judge(case):
             ev, other[0] = other[0], ev
             continue
         via = ':by-name' if op[1] in names else ''
-        if kind == 'set':
+        if kind in ('set', 'setx'):
             _, target, v = op
             a = names.get(target, target)
             try:
-                ev.set_cell_value(target, v)
+                if kind == 'setx':
+                    xlt = importlib.import_module('xlcalculator.xltypes')
+                    ev.set_cell_value(m.cells[a] if a in m.cells and
+                                      step % 2 else xlt.XLCell(a), v)
+                else:
+                    ev.set_cell_value(target, v)
             except Exception as err:  # noqa: BLE001
                 res.fail('set-exception', 'ok', exc_tag(err), op)
                 return res
